@@ -4,6 +4,7 @@ import (
 	"fmt"
 	"go/token"
 	"go/types"
+	"regexp"
 	"strings"
 
 	"golang.org/x/tools/go/ssa"
@@ -93,8 +94,8 @@ func checkArrivalOrderIndependence(c *core.Ctx, rule string, only ...string) int
 	recT := namedType(c, "pkg/fastaio", "FastaRecord")
 	mkFR := func(i int) eval.Value {
 		r := absValue(recT, "r", eval.K(0)).(*eval.StructVal)
-		r.F["ID"] = eval.S(fmt.Sprintf("s%d", i))
-		r.F["Description"] = eval.S(fmt.Sprintf("s%d", i))
+		r.F["ID"] = eval.S(padName(fmt.Sprintf("s%d", i), i))
+		r.F["Description"] = eval.S(padName(fmt.Sprintf("s%d", i), i))
 		r.F["Seq"] = eval.S(strings.Repeat("ACGT"[i%4:i%4+1], 3+i))
 		r.F["Idx"] = eval.K(int64(i))
 		return r
@@ -174,7 +175,7 @@ func checkArrivalOrderIndependence(c *core.Ctx, rule string, only ...string) int
 		cons = append(cons, consumer{name: "updown.writeOutput", pos: fn.Pos(), run: func(order []int) (string, error) {
 			var feed []eval.Value
 			for _, i := range order {
-				r := mkLine(lt, fmt.Sprintf("s%d", i), int64(i), int64(i))
+				r := mkLine(lt, padName(fmt.Sprintf("s%d", i), i), int64(i), int64(i))
 				r.F["ambs"] = eval.NewSlice(eval.K(int64(i+1)), eval.K(int64(i+2)))
 				r.F["snps"] = eval.NewSlice(eval.S(fmt.Sprintf("A%dC", i+5)))
 				feed = append(feed, r)
@@ -194,7 +195,7 @@ func checkArrivalOrderIndependence(c *core.Ctx, rule string, only ...string) int
 		cons = append(cons, consumer{name: "variants.WriteVariants", pos: fn.Pos(), run: func(order []int) (string, error) {
 			var feed []eval.Value
 			for _, i := range order {
-				name := fmt.Sprintf("q%d", i)
+				name := padName(fmt.Sprintf("q%d", i), i)
 				if i == 1 {
 					name = "ref"
 				}
@@ -210,7 +211,7 @@ func checkArrivalOrderIndependence(c *core.Ctx, rule string, only ...string) int
 		cons = append(cons, consumer{name: "updown.reorderRecords", pos: fn.Pos(), run: func(order []int) (string, error) {
 			var feed []eval.Value
 			for _, i := range order {
-				feed = append(feed, mkLine(lt, fmt.Sprintf("s%d", i), int64(i), 0))
+				feed = append(feed, mkLine(lt, padName(fmt.Sprintf("s%d", i), i), int64(i), 0))
 			}
 			ev := newEval(c)
 			sig := fn.Type().(*types.Signature)
@@ -251,7 +252,7 @@ func checkArrivalOrderIndependence(c *core.Ctx, rule string, only ...string) int
 				p.F["ref"] = bytesVal("AC" + strings.Repeat("-", i) + "GT") // each pair has its own gapped reference row
 				p.F["query"] = bytesVal(strings.Repeat("ACGT"[i%4:i%4+1], 4+i))
 				p.F["refname"] = eval.S("REF")
-				p.F["queryname"] = eval.S(fmt.Sprintf("q%d", i))
+				p.F["queryname"] = eval.S(padName(fmt.Sprintf("q%d", i), i))
 				p.F["idx"] = eval.K(int64(i))
 				feed = append(feed, p)
 			}
@@ -293,6 +294,28 @@ func checkArrivalOrderIndependence(c *core.Ctx, rule string, only ...string) int
 			w := cn.want(nItems)
 			c.Ob(rule+"/"+cn.name+"/layout", ref == w, cn.pos, "%d rows arriving in order are written as %q, want %q", nItems, firstN(ref, 300), firstN(w, 300))
 		}
+		if cn.volume == nil {
+			// generic volume run: ten items arriving in order, once with their short names and once with names of 30 to
+			// 55 kB; the second output must be the first with each name replaced (what is written for an item does not
+			// depend on how many bytes were written before it)
+			run := cn.run
+			cn.volume = func() (string, string, error) {
+				order := []int{0, 1, 2, 3, 4, 5, 6, 7, 8, 9}
+				small, err := run(order)
+				if err != nil {
+					return "", "", err
+				}
+				reorderPad = func(i int) string { return "_" + strings.Repeat("n", 30000+2500*i) }
+				big, err := run(order)
+				pad := reorderPad
+				reorderPad = nil
+				if err != nil {
+					return "", "", err
+				}
+				want := shortName.ReplaceAllStringFunc(small, func(m string) string { return m + pad(int(m[1]-'0')) })
+				return big, want, nil
+			}
+		}
 		if cn.volume != nil {
 			got, w, err := cn.volume()
 			if err != nil {
@@ -302,7 +325,7 @@ func checkArrivalOrderIndependence(c *core.Ctx, rule string, only ...string) int
 				if got != w {
 					detail = fmt.Sprintf("%d bytes written, %d expected; %d rows written, %d expected", len(got), len(w), strings.Count(got, "\n"), strings.Count(w, "\n"))
 				}
-				c.Ob(rule+"/"+cn.name+"/volume", got == w, cn.pos, "twelve rows of 30-60 kB each: %s", detail)
+				c.Ob(rule+"/"+cn.name+"/volume", got == w, cn.pos, "rows of 30-60 kB each: %s", detail)
 			}
 		}
 		var bad []string
@@ -358,4 +381,16 @@ func checkArrivalOrderIndependence(c *core.Ctx, rule string, only ...string) int
 	}
 	c.Count("reorderer_arrival_orders_evaluated", n*len(perms))
 	return n
+}
+
+// reorderPad, when set, lengthens the names of the items the consumer harnesses build (volume runs).
+var reorderPad func(i int) string
+
+var shortName = regexp.MustCompile(`\b[sq][0-9]\b`)
+
+func padName(base string, i int) string {
+	if reorderPad != nil {
+		return base + reorderPad(i)
+	}
+	return base
 }
